@@ -2,6 +2,7 @@
 and marking checks (C05, C07, C08).  No stix2 import: everything here is data the
 STIX specification / the library documentation describes as legal input.
 """
+import functools
 import uuid
 
 from hypothesis import strategies as st
@@ -9,6 +10,29 @@ from hypothesis import strategies as st
 from oracle import markmodel, rfc8785, tsref
 
 VERSIONS = ("2.0", "2.1")
+
+
+# Drawing an index from a cached integer strategy is several times cheaper than building
+# st.sampled_from(list) / st.lists(...) anew for every draw inside a composite.
+@functools.lru_cache(maxsize=None)
+def _idx(n):
+    return st.integers(0, n - 1)
+
+
+@functools.lru_cache(maxsize=None)
+def _idx_list(n, lo, hi):
+    return st.lists(_idx(n), min_size=lo, max_size=hi, unique=True)
+
+
+def pick(draw, seq):
+    """One element of a non-empty sequence."""
+    return seq[draw(_idx(len(seq)))]
+
+
+def picks(draw, seq, lo, hi):
+    """lo..hi distinct elements of seq, in drawn order."""
+    hi = min(hi, len(seq))
+    return [seq[i] for i in draw(_idx_list(len(seq), min(lo, hi), hi))]
 
 
 def uid(n):
@@ -50,11 +74,14 @@ _day = st.one_of(
 instant = st.builds(lambda d, s, us: d * tsref.US_PER_DAY + s * 10 ** 6 + us, _day, _second_of_day, _sub_second)
 
 
+_gap = st.one_of(st.just(0), st.sampled_from([1, 999, 1000, 1001, 10 ** 6, 86400 * 10 ** 6]), st.integers(0, 10 ** 9))
+
+
 @st.composite
 def created_modified(draw, version):
     """(created text, modified text): modified >= created, at the precision the spec version writes."""
     c = draw(instant)
-    gap = draw(st.one_of(st.just(0), st.sampled_from([1, 999, 1000, 1001, 10 ** 6, 86400 * 10 ** 6]), st.integers(0, 10 ** 9)))
+    gap = draw(_gap)
     m = min(c + gap, MAX_START)
     if version == "2.0":
         c, m = c - c % 1000, m - m % 1000
@@ -77,7 +104,9 @@ def _common_optional(version):
     return t
 
 
+@functools.lru_cache(maxsize=None)
 def type_table(typ, version):
+    """(required content, {property: (candidate values, removable?)}) -- shared, read-only."""
     v21 = version == "2.1"
     t = _common_optional(version)
     if typ == "identity":
@@ -136,6 +165,11 @@ def type_table(typ, version):
     return req, t
 
 
+@functools.lru_cache(maxsize=None)
+def _sorted_props(typ, version):
+    return sorted(type_table(typ, version)[1])
+
+
 SDO_TYPES = ("identity", "malware", "indicator", "report", "relationship", "campaign")
 _TYPE_IDS = {typ: typ + "--" + uid(0x50 + i) for i, typ in enumerate(SDO_TYPES)}
 
@@ -143,8 +177,8 @@ _TYPE_IDS = {typ: typ + "--" + uid(0x50 + i) for i, typ in enumerate(SDO_TYPES)}
 @st.composite
 def sdo(draw, version=None, typ=None, optional_share=0.5, creator=None):
     """A valid SDO/SRO document of the given spec version and type (drawn if None)."""
-    version = version or draw(st.sampled_from(VERSIONS))
-    typ = typ or draw(st.sampled_from(SDO_TYPES))
+    version = version or pick(draw, VERSIONS)
+    typ = typ or pick(draw, SDO_TYPES)
     req, table = type_table(typ, version)
     c, m = draw(created_modified(version))
     doc = {"type": typ}
@@ -152,16 +186,16 @@ def sdo(draw, version=None, typ=None, optional_share=0.5, creator=None):
         doc["spec_version"] = "2.1"
     doc["id"] = _TYPE_IDS[typ]
     if creator is True or (creator is None and draw(st.booleans())):
-        doc["created_by_ref"] = draw(st.sampled_from(IDENT_IDS))
+        doc["created_by_ref"] = pick(draw, IDENT_IDS)
     doc["created"], doc["modified"] = c, m
     doc.update({k: (list(v) if isinstance(v, list) else v) for k, v in req.items()})
-    for prop in sorted(table):
+    for prop in _sorted_props(typ, version):
         cands, removable = table[prop]
         if prop in req:
             if draw(st.integers(0, 3)) == 0:
-                doc[prop] = draw(st.sampled_from(cands))
-        elif draw(st.floats(0, 1)) < optional_share:
-            doc[prop] = draw(st.sampled_from(cands))
+                doc[prop] = pick(draw, cands)
+        elif draw(_idx(100)) < optional_share * 100:
+            doc[prop] = pick(draw, cands)
     return doc
 
 
@@ -169,14 +203,15 @@ def sdo(draw, version=None, typ=None, optional_share=0.5, creator=None):
 def change_set(draw, typ, version, max_props=3):
     """{property: value | None}: legal changes for the type (None only on removable properties)."""
     _, table = type_table(typ, version)
-    props = draw(st.lists(st.sampled_from(sorted(table)), min_size=1, max_size=max_props, unique=True))
+    names = _sorted_props(typ, version)
     out = {}
-    for p in props:
+    for _ in range(1 + draw(_idx(max_props))):
+        p = pick(draw, names)
         cands, removable = table[p]
         if removable and draw(st.integers(0, 2)) == 0:
             out[p] = None
         else:
-            out[p] = draw(st.sampled_from(cands))
+            out[p] = pick(draw, cands)
     return out
 
 
@@ -201,7 +236,7 @@ def versionable_file_sco(draw):
     """2.1 file SCO that carries custom created / modified / revoked properties (the only way an SCO is
     versionable); deterministic id (UUIDv5) or a random-style UUIDv4 id."""
     c, m = draw(created_modified("2.1"))
-    name = draw(st.sampled_from(["a.exe", "notes.txt"]))
+    name = pick(draw, ["a.exe", "notes.txt"])
     contributing = {"name": name}
     doc = {"type": "file", "spec_version": "2.1"}
     if draw(st.booleans()):
@@ -213,7 +248,7 @@ def versionable_file_sco(draw):
     doc["name"] = name
     for p in sorted(FILE_FREE):
         if draw(st.booleans()):
-            doc[p] = draw(st.sampled_from(FILE_FREE[p][0]))
+            doc[p] = pick(draw, FILE_FREE[p][0])
     doc["created"], doc["modified"], doc["revoked"] = c, m, False
     return doc
 
@@ -236,8 +271,8 @@ def prefix_subject(draw, version=None, typ=None):
     """SDO/SRO with sibling names that are character prefixes of one another."""
     doc = draw(sdo(version, typ, optional_share=0.6, creator=draw(st.integers(0, 3)) != 0))
     n = draw(st.integers(1, len(PREFIX_SIBLINGS)))
-    for k in draw(st.lists(st.sampled_from(sorted(PREFIX_SIBLINGS)), min_size=n, max_size=n, unique=True)):
-        doc[k] = draw(st.sampled_from(PREFIX_SIBLINGS[k]))
+    for k in picks(draw, sorted(PREFIX_SIBLINGS), n, n):
+        doc[k] = pick(draw, PREFIX_SIBLINGS[k])
     return doc
 
 
@@ -255,16 +290,16 @@ def initial_markings(draw, doc, version, usable, max_granular=3):
     """Adds object_marking_refs / granular_markings over selectors from `usable` (real paths of doc)."""
     doc = dict(doc)
     if draw(st.booleans()):
-        doc["object_marking_refs"] = draw(st.lists(st.sampled_from(MARKING_IDS), min_size=1, max_size=2, unique=True))
+        doc["object_marking_refs"] = picks(draw, MARKING_IDS, 1, 2)
     if usable and draw(st.booleans()):
         gms = []
         used = set()
         for _ in range(draw(st.integers(1, max_granular))):
-            sels = sorted(draw(st.lists(st.sampled_from(usable), min_size=1, max_size=3, unique=True)))
+            sels = sorted(picks(draw, usable, 1, 3))
             if version == "2.1" and draw(st.integers(0, 3)) == 0:
-                mk = ("lang", draw(st.sampled_from(LANGS)))
+                mk = ("lang", pick(draw, LANGS))
             else:
-                mk = ("marking_ref", draw(st.sampled_from(MARKING_IDS)))
+                mk = ("marking_ref", pick(draw, MARKING_IDS))
             sels = [s for s in sels if (s, mk[1]) not in used]      # no duplicate (selector, marking) pairs in the input
             used.update((s, mk[1]) for s in sels)
             if sels:
@@ -288,30 +323,30 @@ NESTED_CUSTOM = [
 @st.composite
 def selector_subject(draw, version=None, typ=None):
     """SDO/SRO biased towards falsy values, duplicate list elements, embedded objects, mixed-case keys."""
-    version = version or draw(st.sampled_from(VERSIONS))
-    typ = typ or draw(st.sampled_from(SDO_TYPES))
+    version = version or pick(draw, VERSIONS)
+    typ = typ or pick(draw, SDO_TYPES)
     doc = draw(sdo(version, typ, optional_share=0.45))
     req, table = type_table(typ, version)
     # falsy / repeated standard values
     if "description" in table and draw(st.booleans()):
-        doc["description"] = draw(st.sampled_from(["", "d"]))
+        doc["description"] = pick(draw, ["", "d"])
     if draw(st.booleans()):
         base = doc.get("labels") or ["a"]
-        doc["labels"] = draw(st.sampled_from([base + base[:1], base + ["a", "a"], base]))
+        doc["labels"] = pick(draw, [base + base[:1], base + ["a", "a"], base])
     if version == "2.1" and draw(st.booleans()):
-        doc["confidence"] = draw(st.sampled_from([0, 0, 15]))
+        doc["confidence"] = pick(draw, [0, 0, 15])
     if typ == "report" and draw(st.booleans()):
-        doc["object_refs"] = draw(st.sampled_from([OBJ_REFS[:1] * 2, OBJ_REFS[:2] + OBJ_REFS[:1], OBJ_REFS[:3]]))
+        doc["object_refs"] = pick(draw, [OBJ_REFS[:1] * 2, OBJ_REFS[:2] + OBJ_REFS[:1], OBJ_REFS[:3]])
     if typ == "identity" and draw(st.booleans()):
         doc["contact_information"] = ""
     if draw(st.booleans()):
-        doc["external_references"] = draw(st.sampled_from([EXTREFS[2:3], EXTREFS[:1] * 2, EXTREFS[1:4], [EXTREFS[3], EXTREFS[2]]]))
+        doc["external_references"] = pick(draw, [EXTREFS[2:3], EXTREFS[:1] * 2, EXTREFS[1:4], [EXTREFS[3], EXTREFS[2]]])
     if typ in ("malware", "indicator") and draw(st.booleans()):
-        doc["kill_chain_phases"] = draw(st.sampled_from([KCP[:1] * 2, KCP[:2], KCP[:1]]))
-    for k in draw(st.lists(st.sampled_from(sorted(FALSY_CUSTOM)), max_size=3, unique=True)):
+        doc["kill_chain_phases"] = pick(draw, [KCP[:1] * 2, KCP[:2], KCP[:1]])
+    for k in picks(draw, sorted(FALSY_CUSTOM), 0, 3):
         doc[k] = FALSY_CUSTOM[k]
     if draw(st.booleans()):
-        doc.update(draw(st.sampled_from(NESTED_CUSTOM)))
+        doc.update(pick(draw, NESTED_CUSTOM))
     return doc
 
 
@@ -325,11 +360,11 @@ ARCHIVE = {"contains_refs": ["file--" + uid(0x62), "file--" + uid(0x62)], "comme
 @st.composite
 def file_content(draw, version):
     """Property content of a file observable (without type/id): hashes with upper-case keys, falsy size, extensions."""
-    f = {"name": draw(st.sampled_from(["a.exe", "b", ""]))}
+    f = {"name": pick(draw, ["a.exe", "b", ""])}
     if draw(st.booleans()):
-        f["hashes"] = dict(draw(st.sampled_from(FILE_HASHES)))
+        f["hashes"] = dict(pick(draw, FILE_HASHES))
     if draw(st.booleans()):
-        f["size"] = draw(st.sampled_from([0, 0, 77]))
+        f["size"] = pick(draw, [0, 0, 77])
     if draw(st.booleans()):
         f["mime_type"] = "text/plain"
     ext = {}
@@ -358,12 +393,12 @@ def observed_data20(draw):
     c, m = draw(created_modified("2.0"))
     objs = {"0": dict({"type": "file"}, **draw(file_content("2.0")))}
     if draw(st.booleans()):
-        objs["1"] = {"type": "directory", "path": draw(st.sampled_from(["/tmp", ""])), "contains_refs": ["0"] * draw(st.integers(1, 2))}
+        objs["1"] = {"type": "directory", "path": pick(draw, ["/tmp", ""]), "contains_refs": ["0"] * draw(st.integers(1, 2))}
     if draw(st.booleans()):
         objs["2"] = {"type": "ipv4-addr", "value": "198.51.100.3"}
     doc = {"type": "observed-data", "id": "observed-data--" + uid(0x73), "created": c, "modified": m,
            "first_observed": "2015-12-21T19:00:00Z", "last_observed": "2015-12-21T19:00:00Z",
-           "number_observed": draw(st.sampled_from([1, 50])), "objects": objs}
+           "number_observed": pick(draw, [1, 50]), "objects": objs}
     if draw(st.booleans()):
         doc["labels"] = ["a", "a"]
     return doc
